@@ -6,7 +6,7 @@ import operator
 
 import optree
 
-from vf import gen, harness, refmodel
+from vf import gen, harness, refmodel, same
 from vf import universe as U
 
 LEVEL = 'exploration'
@@ -108,6 +108,23 @@ def check_case(sink, c, o):  # noqa: C901
         al2 = optree.all_leaves(mixed, **kw)
         sink.check(al2 == all(optree.tree_is_leaf(x, **kw) for x in mixed), 'all_leaves/definition', 'all_leaves(xs) iff every element is a leaf', ident)
         sink.check(optree.all_leaves([], **kw) is True, 'all_leaves/empty', 'all_leaves([])', ident)
+        # all_leaves on arbitrary mixtures of the tree's sub-objects (consecutive elements of one type with
+        # different verdicts, leaves by predicate next to nodes, generators as the iterable)
+        rng = gen.case_rng(c.seed, 'c03al', c.index)
+        subs = same.subobjects(c.tree)
+        for r in range(6):
+            xs = [rng.choice(subs) for _ in range(rng.randrange(1, 6))]
+            if r % 2:
+                xs.sort(key=lambda x: type(x).__name__)  # group equal types next to each other
+            want_al = all(optree.tree_is_leaf(x, **kw) for x in xs)
+            got_al = optree.all_leaves(iter(xs) if r == 5 else xs, **kw)
+            sink.check(got_al == want_al, 'all_leaves/mixture', 'all_leaves(xs) holds exactly when every element is a leaf', ident, lambda: dict(xs=xs, got=got_al, want=want_al))
+            if not want_al:
+                sink.count('all_leaves-false-cases')
+        for x in subs[:8]:
+            il = optree.tree_is_leaf(x, **kw)
+            lx, sx = optree.tree_flatten(x, **kw)
+            sink.check(il == (len(lx) == 1 and lx[0] is x and sx.is_leaf()), 'tree_is_leaf/subobject', 'tree_is_leaf(x) iff flatten(x) == ([x], leaf spec)', ident, lambda: (x, il))
     sink.cell(o.none_is_leaf, o.namespace or 'global', o.pred, o.dict_mode)
     ref_like = spec.num_nodes - spec.num_leaves
     sink.case(harness.fp(c.desc.short(), o.key()), ref_like >= 2 or bool(c.mat.hist_classes), dict(ident, num_leaves=n, treespec=str(spec)[:200]))
@@ -241,6 +258,7 @@ def run_shard(sink, tier, seed, shard):
 def finalize(sink, tier, seed):
     sink.require('oracle:tree_iter returns the identical leaves as tree_flatten')
     sink.require('reduce-cases')
+    sink.require('all_leaves-false-cases', 100)
     sink.require('reduce-empty-trees')
     sink.require('error-class:over-deep')
     for cls in U.BAD_CLASSES:
